@@ -22,7 +22,14 @@ pub fn check(cx: &Cx, rep: &mut Report) {
                 // R1: walk the event sequence
                 let send_ret: HashMap<u64, u64> = sends.iter().filter(|o| matches!(o.res, Some(Res::Ok))).filter_map(|o| o.e.map(|e| (e, o.msg))).collect();
                 let mine: HashSet<u64> = sends.iter().map(|o| o.msg).collect();
-                let end = af.task_end.map(|e| e.0).unwrap_or(u64::MAX);
+                // nothing is dequeued once the loop has left for the terminating stopped(): sends parked in flush
+                // then resolve Ok without ever being taken out (futures mpsc), which is "the actor terminates"
+                let t_in_final = af.t_final().map(|t| t.0);
+                let end = match (af.task_end, cx.mt) {
+                    (Some(e), _) => t_in_final.map(|t| t.min(e.0)).unwrap_or(e.0),
+                    (None, true) => t_in_final.unwrap_or(u64::MAX),
+                    (None, false) => u64::MAX,
+                };
                 let mut returned: HashSet<u64> = HashSet::new();
                 let mut dequeued: HashSet<u64> = HashSet::new();
                 let mut maxo = 0usize;
@@ -48,7 +55,8 @@ pub fn check(cx: &Cx, rep: &mut Report) {
                     }
                     let out = returned.difference(&dequeued).count();
                     maxo = maxo.max(out);
-                    if out > n {
+                    // L2: the handler-entry event is logged a few instructions after the dequeue: slack 1
+                    if out > n + cx.mt as usize {
                         let w: Vec<u64> = returned.difference(&dequeued).copied().collect();
                         rep.fail(P, "R1", format!("outstanding={};n={n}", out.min(n + 2)), format!("mailbox bounded({n}) of tag {}: {out} sends have returned Ok but are not yet taken out of the mailbox at #{} (msgs {w:?})", af.tag, e.stamp), vec![e.stamp]);
                         break;
